@@ -13,51 +13,52 @@ namespace Window
 variable {α : Type} [Add α] [Sub α] [Mul α] [Div α] [Neg α] [LT α] [LE α] [Fn α] [OfScientific α]
   [DecidableRel (· < · : α → α → Prop)] [DecidableRel (· ≤ · : α → α → Prop)]
 
-/-! ## half-window generators: the first `m` points of the length-`n` window -/
+/-! ## half-window generators: the first `m` points of the length-`n` window
+(`…Pt n i` is the body of the C++ loop at index `i`) -/
 
 /-- `_cosinewin`: `sin(pi / n * (i + 0.5))` -/
-def cosinewin (n m : Nat) : List α :=
-  (List.range m).map fun i => Fn.sin (Fn.pi / Fn.ofNat n * (Fn.ofNat i + 0.5))
+def cosinePt (n i : Nat) : α := Fn.sin (Fn.pi / Fn.ofNat n * (Fn.ofNat i + 0.5))
+def cosinewin (n m : Nat) : List α := (List.range m).map (cosinePt n)
 
 /-- `_hannwin`: `0.5 - 0.5 * cos((2 * pi * i) / (n - 1))` -/
-def hannwin (n m : Nat) : List α :=
-  (List.range m).map fun i => 0.5 - 0.5 * Fn.cos ((Fn.ofNat 2 * Fn.pi * Fn.ofNat i) / Fn.ofNat (n - 1))
+def hannPt (n i : Nat) : α := 0.5 - 0.5 * Fn.cos ((Fn.ofNat 2 * Fn.pi * Fn.ofNat i) / Fn.ofNat (n - 1))
+def hannwin (n m : Nat) : List α := (List.range m).map (hannPt n)
 
 /-- `_hammingwin` -/
-def hammingwin (n m : Nat) : List α :=
-  (List.range m).map fun i => 0.54 - 0.46 * Fn.cos ((Fn.ofNat 2 * Fn.pi * Fn.ofNat i) / Fn.ofNat (n - 1))
+def hammingPt (n i : Nat) : α := 0.54 - 0.46 * Fn.cos ((Fn.ofNat 2 * Fn.pi * Fn.ofNat i) / Fn.ofNat (n - 1))
+def hammingwin (n m : Nat) : List α := (List.range m).map (hammingPt n)
 
 /-- `_blackmanwin` -/
-def blackmanwin (n m : Nat) : List α :=
-  (List.range m).map fun i =>
-    0.42 - 0.5 * Fn.cos ((Fn.ofNat 2 * Fn.pi * Fn.ofNat i) / Fn.ofNat (n - 1))
-      + 0.08 * Fn.cos ((Fn.ofNat 4 * Fn.pi * Fn.ofNat i) / Fn.ofNat (n - 1))
+def blackmanPt (n i : Nat) : α :=
+  0.42 - 0.5 * Fn.cos ((Fn.ofNat 2 * Fn.pi * Fn.ofNat i) / Fn.ofNat (n - 1))
+    + 0.08 * Fn.cos ((Fn.ofNat 4 * Fn.pi * Fn.ofNat i) / Fn.ofNat (n - 1))
+def blackmanwin (n m : Nat) : List α := (List.range m).map (blackmanPt n)
 
 /-- `_blackmanharriswin` -/
-def blackmanharriswin (n m : Nat) : List α :=
-  (List.range m).map fun i =>
-    0.35875 - 0.48829 * Fn.cos (Fn.ofNat 2 * Fn.pi * Fn.ofNat i / Fn.ofNat (n - 1))
-      + 0.14128 * Fn.cos (Fn.ofNat 4 * Fn.pi * Fn.ofNat i / Fn.ofNat (n - 1))
-      - 0.01168 * Fn.cos (Fn.ofNat 6 * Fn.pi * Fn.ofNat i / Fn.ofNat (n - 1))
+def blackmanharrisPt (n i : Nat) : α :=
+  0.35875 - 0.48829 * Fn.cos (Fn.ofNat 2 * Fn.pi * Fn.ofNat i / Fn.ofNat (n - 1))
+    + 0.14128 * Fn.cos (Fn.ofNat 4 * Fn.pi * Fn.ofNat i / Fn.ofNat (n - 1))
+    - 0.01168 * Fn.cos (Fn.ofNat 6 * Fn.pi * Fn.ofNat i / Fn.ofNat (n - 1))
+def blackmanharriswin (n m : Nat) : List α := (List.range m).map (blackmanharrisPt n)
 
 /-- `_gausswin`: `t = arange(m) - (n-1)/2`, `exp(-0.5 * abs2(alpha * t / ((n-1)/2)))`;
 `abs2(arr_real)` is `power(x, 2)` = `std::pow(x, 2.0)` -/
-def gausswin (alpha : α) (n m : Nat) : List α :=
-  (List.range m).map fun i =>
-    let t := Fn.ofNat i - Fn.ofNat (n - 1) / Fn.ofNat 2
-    Fn.exp (Fn.pow (t * alpha / (Fn.ofNat (n - 1) / Fn.ofNat 2)) (Fn.ofNat 2) * (-0.5))
+def gaussPt (alpha : α) (n i : Nat) : α :=
+  let t := Fn.ofNat i - Fn.ofNat (n - 1) / Fn.ofNat 2
+  Fn.exp (Fn.pow (t * alpha / (Fn.ofNat (n - 1) / Fn.ofNat 2)) (Fn.ofNat 2) * (-0.5))
+def gausswin (alpha : α) (n m : Nat) : List α := (List.range m).map (gaussPt alpha n)
 
-/-- `_tukeywin` -/
-def tukeywin (ratio : α) (n m : Nat) : List α :=
-  if ratio ≤ Fn.ofNat 0 then List.replicate m (Fn.ofNat 1)
-  else if Fn.ofNat 1 ≤ ratio then hannwin n m
+/-- `_tukeywin` (the two early returns and the taper loop, per index) -/
+def tukeyPt (ratio : α) (n i : Nat) : α :=
+  if ratio ≤ Fn.ofNat 0 then Fn.ofNat 1
+  else if Fn.ofNat 1 ≤ ratio then hannPt n i
   else
     let per := ratio / Fn.ofNat 2
     let tl := Fn.floor (per * Fn.ofNat (n - 1)) + Fn.ofNat 1
-    (List.range m).map fun i =>
-      if Fn.ofNat i < tl then
-        (Fn.ofNat 1 + Fn.cos (Fn.pi / per * (Fn.ofNat i / Fn.ofNat (n - 1) - per))) / Fn.ofNat 2
-      else Fn.ofNat 1
+    if Fn.ofNat i < tl then
+      (Fn.ofNat 1 + Fn.cos (Fn.pi / per * (Fn.ofNat i / Fn.ofNat (n - 1) - per))) / Fn.ofNat 2
+    else Fn.ofNat 1
+def tukeywin (ratio : α) (n m : Nat) : List α := (List.range m).map (tukeyPt ratio n)
 
 /-! ## `_sym_window`: assembly of the full window from its first half -/
 
@@ -118,17 +119,24 @@ def kaiser (nw : Nat) (beta : α) : List α :=
 
 /-! ## `fir1` -/
 
-/-- `_lowpass_fir(n, wn, win)` -/
-def lowpassFir (n : Nat) (wn : α) (win : List α) : Except String (List α) :=
-  if win.length ≠ n + 1 then .error "Window must be n+1 elements" else
+/-- the taps of `_lowpass_fir` before `h /= sum(h)` -/
+def lowpassTaps (n : Nat) (wn : α) (win : List α) : List α :=
   let L := win.length / 2
   let fc := wn / Fn.ofNat 2
   let c := Fn.ofNat 2 * Fn.pi * fc
   let h0 := List.zipWith (fun (i : Nat) wi =>
       let tt := Fn.ofNat i - Fn.ofNat n / Fn.ofNat 2
       Fn.sin (tt * c) / tt * wi) (List.range L) (win.take L)
-  let h := if n % 2 = 1 then h0 ++ h0.reverse else h0 ++ [c] ++ h0.reverse
-  let s := h.foldl (· + ·) (Fn.ofNat 0)
+  if n % 2 = 1 then h0 ++ h0.reverse else h0 ++ [c] ++ h0.reverse
+
+/-- `sum(h)`: `std::accumulate(begin, end, 0.0)` -/
+def accumulate (h : List α) : α := h.foldl (· + ·) (Fn.ofNat 0)
+
+/-- `_lowpass_fir(n, wn, win)` -/
+def lowpassFir (n : Nat) (wn : α) (win : List α) : Except String (List α) :=
+  if win.length ≠ n + 1 then .error "Window must be n+1 elements" else
+  let h := lowpassTaps n wn win
+  let s := accumulate h
   .ok (h.map (· / s))
 
 /-- the sign pattern of `h.slice(t1, n + 1, 2) = -hh` -/
